@@ -221,6 +221,27 @@ OVERRIDES = {
          "JSON) are excluded by predicate; three defects fixed (inline vs by-name named types, named kinds matched by name alone, "
          "named-type reporting crash). Trusted: z3, pyvc translator, stream model; reader schemas are arbitrary values (no assumption)."),
    technique="contract-based deductive verification of stream alignment under resolution (every reader, exceptional exits allowed) and of the promotion / enum-default helpers; bounded differential checking against an executable resolution oracle"),
+ "C16": dict(cat="exploration", design="0.3, 0.16, 7/C16",
+   text=("Bounded stand-in (labelled bounded, never counted as proved): dates, times, timestamps (aware with offsets, local), uuid, "
+         "bytes- and fixed-decimals against independent arithmetic over boundary and random values. Deductive pieces only, for date, "
+         "time-millis and time-micros: prepare_date / prepare_time_millis / prepare_time_micros return exactly the integer the "
+         "specification prescribes (days from 1970-01-01; milli- / microseconds after midnight, microseconds truncated) and pass every "
+         "other value on unchanged; read_date / read_time_millis / read_time_micros build, for EVERY value of the stored domain, the "
+         "date / time of day with exactly those components; four arithmetic lemmas: the stored value of every time of day lies in the "
+         "reader's domain and is read back with the same components (truncated), and every stored value is the image of what it is read as. "
+         "Timestamps, uuid and decimals have no contract. Level therefore exploration."),
+   note="Assumed (cross-checked by `vcheck axioms`): calendar objects through observer functions (hour, minute, second, microsecond, toordinal) with their library ranges; constructor contracts datetime.time(...) and date.fromordinal(...); int(a / b) == a // b below 2**52.",
+   technique="bounded differential checking against independent calendar / decimal arithmetic; contract-based deductive verification of the date and time-of-day converters"),
+ "C19": dict(cat="exploration", design="0.3, 0.16, 7/C19",
+   text=("Bounded stand-in (labelled bounded, never counted as proved): dependency graphs written one type per file (hand-written and "
+         "random DAGs); equality with the inlined schema (canonical form and encodings); load_schema_ordered; every needed file missing. "
+         "Deductive piece only: _inject_schema returns exactly INJ(outer, inner, ns) -- the loaded type inlined at its FIRST use in "
+         "depth-first, left-to-right order (union branches, array items, map values, record fields), namespace-relative references "
+         "resolved against the enclosing record's namespace, every later reference left a name -- and reports whether a reference was "
+         "found; nothing is touched once something has been injected. The loader around it (files, the parse / load / inject retry "
+         "loop, load_schema_ordered) has no contract. Level therefore exploration."),
+   note="Data model of the verifier: values, not objects (two sub-schemas that are the same object are not distinguished from equal ones); unmatched references are specified in their qualified spelling (taken from the code).",
+   technique="bounded differential checking of load_schema against parsing the inlined schema; contract-based deductive verification of the injection step"),
  "C11": dict(cat="exploration", design="0.3, 0.10, 7/C11",
    text=("Bounded stand-in (labelled bounded, never counted as proved): parse_schema against an independent parser written from the "
          "specification on valid schemas; every listed kind of ill-forming mutation at every position. Deductive pieces only: schema_name "
